@@ -16,10 +16,11 @@ theorem runWorkers_ver (n : Nat) (m : M) (h1 : m.1.panicked = none) (h2 : m.1.st
   conv => lhs; unfold runWorkers
   simp [h1, h2, h3, h4, h5]
 
-theorem runWorkers_stopped (n : Nat) (m : M) (h1 : m.1.panicked = none) (h2 : m.1.stopAnn = true) :
+theorem runWorkers_stopped (n : Nat) (m : M) (h1 : m.1.panicked = none) (h2 : m.1.stopAnn = true)
+    (h3 : m.1.stopHang = false) :
     runWorkers (n + 1) m = runWorkers n (handleStopped m) := by
   conv => lhs; unfold runWorkers
-  simp [h1, h2]
+  simp [h1, h2, h3]
 
 /-- Some non-padding file of the torrent exists in the storage. -/
 def SomeFileExists (s : St) : Prop :=
@@ -75,26 +76,30 @@ theorem verify_handle_fields (s : St) (p : Parked) (kn : Nat → Bool) (h : Life
     (handle s p kn .verify).1.1.gateRead = false ∧ (handle s p kn .verify).1.1.doVerify = true ∧
     (handle s p kn .verify).1.1.bf = none ∧ (handle s p kn .verify).1.1.failOpen = s.failOpen ∧
     (handle s p kn .verify).1.1.errC = true ∧ (handle s p kn .verify).1.1.fileExists = s.fileExists ∧
-    (handle s p kn .verify).1.1.cfg = s.cfg := by
+    (handle s p kn .verify).1.1.cfg = s.cfg ∧ (handle s p kn .verify).1.1.stopHang = s.stopHang := by
   obtain ⟨i1, i2, i3, i4, i5, i6, i7, i8⟩ := h.idle (Or.inl he)
   have hst : ∀ x : St, x.errC = false → x.status = .stopped := fun x hx => (status_stopped_iff x).2 hx
   simp only [handle, onSt_fst]
   unfold handleVerifyCommand
   simp only [onSt_fst]
   rw [if_pos (hst _ (by simpa using he))]
-  unfold start
+  unfold startCore
   simp [he, hi, i1, i3, hp]
 
-/-- **verify_ends_stopped.** The verify command on a stopped torrent whose metadata is known and of which
-at least one file exists, with no storage failure: the files are (re)opened, verified, the bitfield is
-replaced by the verifier's, and the torrent is `Stopped` again with `doVerify` cleared — all within the
+/-- **verify_ends_stopped (general form).** The verify command on a stopped torrent whose metadata is known
+and of which at least one file exists, with no storage failure: the files are (re)opened, verified, the
+bitfield is replaced by the verifier's, `doVerify` is cleared and the torrent is `Stopped` again — or, if a
+tracker does not answer the `stopped` event, `Stopping` with the announcer still waiting — all within the
 op, whatever else is pending. -/
-theorem verify_ends_stopped (s : St) (p : Parked) (kn : Nat → Bool) (h : Life s) (he : s.errC = false)
+theorem verify_ends_stopped_or_hangs (s : St) (p : Parked) (kn : Nat → Bool) (h : Life s) (he : s.errC = false)
     (hi : s.info = true) (hp : s.panicked = none) (hf : s.failOpen = false) (hex : SomeFileExists s) :
-    (step s p kn .verify).1.st.status = .stopped ∧ (step s p kn .verify).1.st.doVerify = false := by
-  rw [status_stopped_iff, step_st]
+    (step s p kn .verify).1.st.doVerify = false ∧
+    ((step s p kn .verify).1.st.status = .stopped ∨
+      (s.stopHang = true ∧ (step s p kn .verify).1.st.status = .stopping ∧
+        (step s p kn .verify).1.st.stopHang = true)) := by
+  rw [status_stopped_iff, status_stopping_iff, step_st]
   have h0 : Life { s with sto := [], mayStart := [], closedDl := [], mayStartI := false } := h.congr (by lframe)
-  obtain ⟨a1, a2, a3, a4, a5, a6, a7, a8, a9, a10, a11⟩ :=
+  obtain ⟨a1, a2, a3, a4, a5, a6, a7, a8, a9, a10, a11, a12⟩ :=
     verify_handle_fields { s with sto := [], mayStart := [], closedDl := [], mayStartI := false } p kn h0 he hi hp
   generalize hm : (handle { s with sto := [], mayStart := [], closedDl := [], mayStartI := false } p kn .verify) = r at *
   have hlA : Life r.1.1 := by rw [← hm]; exact handle_life _ p kn .verify h0
@@ -108,26 +113,29 @@ theorem verify_ends_stopped (s : St) (p : Parked) (kn : Nat → Bool) (h : Life 
   obtain ⟨c1, c2, c3, c4⟩ := handleVerificationDone_doVerify_stop (allocatorRun r.1) (by rw [b6]; exact a6)
     (by rw [b7]; exact a9) (by rw [b3]; exact a2) (by rw [b4]; exact a1)
   have hlC := handleVerificationDone_life _ hlB b1
-  -- stop announcer → stopped
-  have hlD := handleStopped_life _ hlC c1
-  have hrun : runWorkers 12 r.1 = runWorkers 9 (handleStopped (handleVerificationDone (allocatorRun r.1))) := by
+  have hrun : runWorkers 12 r.1 = runWorkers 10 (handleVerificationDone (allocatorRun r.1)) := by
     rw [runWorkers_alloc 11 r.1 a1 a2 a3 a4,
-      runWorkers_ver 10 _ (by rw [b4]; exact a1) (by rw [b3]; exact a2) b2 b1 (by rw [b5]; exact a5),
-      runWorkers_stopped 9 _ c3 c1]
-  have hD : (handleStopped (handleVerificationDone (allocatorRun r.1))).1.errC = false ∧
-      (handleStopped (handleVerificationDone (allocatorRun r.1))).1.doVerify = false := by
-    unfold handleStopped
-    simp [c2]
-  have hfin := runWorkers_stays_stopped 9 _ hlD hD.1 hD.2
-  rw [hrun]
-  have hl2 := runWorkers_life 9 _ hlD
-  split
-  · obtain ⟨i1, i2, i3, i4, i5, i6, i7, i8⟩ := hl2.idle (Or.inl hfin.1)
-    unfold deliverParked
-    repeat' split
-    all_goals first
-      | exact hfin
-      | (rename_i hk; rw [St.findPeer, i6] at hk; simp at hk)
-  · exact hfin
+      runWorkers_ver 10 _ (by rw [b4]; exact a1) (by rw [b3]; exact a2) b2 b1 (by rw [b5]; exact a5)]
+  have hsh : (handleVerificationDone (allocatorRun r.1)).1.stopHang = s.stopHang := by
+    simp only [handleVerificationDone_stopHang, allocatorRun_stopHang]; exact a12
+  -- stop announcer → stopped (or it waits for a hanging tracker)
+  obtain ⟨d1, d2⟩ := settle_not_running 9 _ hlC c3 c2 (Or.inr c1)
+  rw [hrun, settle_step _ r.2.2 p.isSome (runWorkers_life 10 _ hlC) (settle_nr d2)]
+  refine ⟨d1, ?_⟩
+  rcases d2 with d2 | ⟨d2, d3⟩
+  · exact Or.inl d2
+  · exact Or.inr ⟨hsh ▸ d2, ⟨d3.1, d3.2.1⟩, d3.2.2⟩
+
+/-- **verify_ends_stopped.** With every tracker answering (`stopHang = false`) the verify command on a
+stopped torrent ends in `Stopped` with `doVerify` cleared. -/
+theorem verify_ends_stopped (s : St) (p : Parked) (kn : Nat → Bool) (h : Life s) (he : s.errC = false)
+    (hi : s.info = true) (hp : s.panicked = none) (hf : s.failOpen = false) (hex : SomeFileExists s)
+    (hh : s.stopHang = false) :
+    (step s p kn .verify).1.st.status = .stopped ∧ (step s p kn .verify).1.st.doVerify = false := by
+  obtain ⟨h1, h2⟩ := verify_ends_stopped_or_hangs s p kn h he hi hp hf hex
+  refine ⟨?_, h1⟩
+  rcases h2 with h2 | h2
+  · exact h2
+  · rw [hh] at h2; cases h2.1
 
 end Rain.Loop
